@@ -272,6 +272,10 @@ FIXED = [
     ("[]string", "value.all(a, this.Tags.exists(b, a == b))"), ("[]string", "value.exists(a, this.Tags.all(b, a != b))"),
     ("[]int", "value.all(x, this.Nums.exists(y, y > x)) || size(value) == 0"), ("[]string", "size(value.filter(a, this.Tags.exists(b, b == a))) >= 1"),
     ("[]string", "value.all(x, value.exists(y, x == y))"), ("[]string", "value.exists_one(x, this.Tags.exists(x2, x2 == x))"),
+    # found by the thorough tier: a ternary inside arithmetic; a conversion that yields 0 as divisor
+    ("string", "(this.A % size(this.Tags)) / (0 in [1, 2, 3, 100] ? size(value) : 200) + -1 >= -size(this.M)"),
+    ("int", "this.A / (this.Ok ? 2 : 1) > 0"), ("int", "(this.Ok ? 2 : 1) * value > 3"), ("int", "value - (this.Ok ? 2 : 1) > 3"),
+    ("bool", "10 + 1 / int('x') >= size(this.Nums) && (!value) || (size(this.M) < 2 && 100 > size(this.Nums))"),
     # patterns only known at run time (D35, fixed): guarded regexp.Compile
     ("string", "value.matches(this.S)"), ("string", "matches(this.S, value)"), ("string", "value.matches(this.S + '$')"), ("[]string", "value.all(x, x.matches(this.S))"),
     ("string", "this.S.matches(value)"), ("string", "value.matches('^a' + 'b')"),
